@@ -457,6 +457,15 @@ func (p *Path) mkMul(x, y value) value {
 
 func (p *Path) mkMin(x, y value) value {
 	c := p.mkIntCmp("<=", x, y)
+	if _, sym := c.(*Sym); sym && p.interp != nil {
+		// semantic simplification: is one side always the minimum on this path?
+		if p.validCond(c) {
+			return x
+		}
+		if p.validCond(p.mkIntCmp("<=", y, x)) {
+			return y
+		}
+	}
 	r := mkIte(c, x, y)
 	if rs, ok := r.(*Sym); ok && rs.lo == nil && rs.hi == nil {
 		xl, xh := p.ivOf(x)
@@ -605,6 +614,16 @@ func (p *Path) mkSubstr(s, off, n value) value {
 				acc = p.mkAdd(acc, p.mkLen(sg))
 				if tInt(acc) == tInt(n) {
 					return concatOf(segs[:k+1])
+				}
+			}
+			// a concrete cut position may coincide with a segment boundary semantically
+			if nok {
+				acc = int64(0)
+				for k, sg := range segs[:len(segs)-1] {
+					acc = p.mkAdd(acc, p.mkLen(sg))
+					if _, sym := acc.(*Sym); sym && p.validEq(acc, n) {
+						return concatOf(segs[:k+1])
+					}
 				}
 			}
 		}
